@@ -132,10 +132,12 @@ class FrontWorld:
         trace = False
         trace_dir = None
 
-    def imap_client(self, addr="10.0.0.1", port=5000):
+    def imap_client(self, addr="10.0.0.1", port=5000, limit=2**16):
+        """limit: the stream buffer limit of the client connection (asyncio.start_server's default 64 KiB in production, where it is
+        far below MAX_INPUT_SIZE; a check that lowers MAX_INPUT_SIZE lowers it too, to keep that relation)."""
         import asimap.server as sv
 
-        rd = asyncio.StreamReader(limit=2**16, loop=self.loop)
+        rd = asyncio.StreamReader(limit=limit, loop=self.loop)
         wr = CapWriter(self.loop, rd, "to-client")
         wr.peer = (addr, port)
         c = sv.IMAPClient(self._Srv(), f"{addr}:{port}", addr, port, rd, wr)
